@@ -120,7 +120,10 @@ def run(ctx):
         return [c for c in calls_in(fn) if isinstance(c.func, ast.Attribute) and c.func.attr == "_pack"]
     eqc, hc = pack_calls(eq), pack_calls(hs)
     def argsig(c):
-        return (tuple(norm(a) for a in c.args), tuple(sorted((k.arg, norm(k.value)) for k in c.keywords)))
+        from ..core import enclosing_function, expand_aliases, single_assign_aliases
+
+        al = single_assign_aliases(enclosing_function(c))
+        return (tuple(norm(expand_aliases(a, al)) for a in c.args), tuple(sorted((k.arg, norm(expand_aliases(k.value, al))) for k in c.keywords)))
     ctx.check(len(eqc) == 2 and len({argsig(c) for c in eqc}) == 1, "R12.2", "Record.__eq__:projection",
               "__eq__ does not compare self._pack(A) with other._pack(A) for one argument list A", eq,
               f"compares _pack{argsig(eqc[0]) if eqc else ''} of both operands")
@@ -134,7 +137,11 @@ def run(ctx):
                   f"both use _pack{argsig(hc[0])}", key="R12.2:Record:eq-hash-argument-mismatch")
         pk_fn = rec_methods.get("_pack")
         for c, who in ((eqc[0], "__eq__"), (hc[0], "__hash__")):
-            names = {n.id for k in c.keywords for n in ast.walk(k.value) if isinstance(n, ast.Name)} | {n.id for a in c.args for n in ast.walk(a) if isinstance(n, ast.Name)}
+            from ..core import expand_aliases, single_assign_aliases
+
+            al = single_assign_aliases(eq if who == "__eq__" else hs)
+            names = {n.id for k in c.keywords for n in ast.walk(expand_aliases(k.value, al)) if isinstance(n, ast.Name)} | \
+                {n.id for a in c.args for n in ast.walk(expand_aliases(a, al)) if isinstance(n, ast.Name)}
             glob = [n for n in names if prog.resolve_global(base, n) is not None]
             local_shadow = [n for n in glob if n in func_params(eq if who == "__eq__" else hs)]
             ok = bool(glob) and not local_shadow
@@ -198,6 +205,32 @@ def run(ctx):
     else:
         ctx.ok("R12.3", "GroupedRecord:pack-shape", f"shape {fmt(gs)}; normaliser is recursive", grp)
 
+    # ------------------------------------------------------------------ R12.6 dict normalisation is order-insensitive
+    ctx.rule("R12.6", "where the hash normalisation converts a dict, the result does not depend on the dict's insertion order (frozenset / sorted of the items): "
+                      "dicts compare equal regardless of key order, so an order-sensitive conversion gives equal records different hashes")
+    scopes = [hs]
+    for c in calls_in(hs):
+        r = prog.resolve_expr(base, c.func) if isinstance(c.func, ast.Name) else None
+        if isinstance(r, DefRef) and isinstance(r.node, ast.FunctionDef):
+            scopes.append(r.node)
+    n_conv = 0
+    for fn in scopes:
+        for c in calls_in(fn, nested=True):
+            if call_name(c) not in ("tuple", "list", "frozenset", "sorted", "set"):
+                continue
+            inner = c.args[0] if c.args else None
+            if inner is None or not any(isinstance(x, ast.Call) and isinstance(x.func, ast.Attribute) and x.func.attr == "items" for x in ast.walk(inner)):
+                continue
+            # only the outermost conversion of an .items() view counts
+            par = getattr(c, "_parent", None)
+            if isinstance(par, ast.Call) and call_name(par) in ("tuple", "list", "frozenset", "sorted", "set") and c in par.args:
+                continue
+            n_conv += 1
+            order_free = call_name(c) in ("frozenset", "set") or (call_name(c) in ("tuple", "list") and isinstance(inner, ast.Call) and call_name(inner) == "sorted")
+            ctx.check(order_free, "R12.6", f"{fn.name}:dict-conversion", f"`{norm(c)[:70]}` keeps the dict's insertion order: two records whose dict values have the same content in a "
+                      "different key order compare equal but hash differently", c, "order-insensitive conversion", key="R12.6:hash:dict-conversion-order-sensitive")
+    ctx.floor("R12.6", "dict conversions in the hash normalisation", n_conv, 1)
+
     # ------------------------------------------------------------------ R12.4
     ctx.rule("R12.4", "__eq__ returns False for a non-Record operand before using it")
     cfg = CFG(eq)
@@ -226,9 +259,12 @@ def run(ctx):
     setter = ctx.anchor_func("flow.record.base.set_ignored_fields_for_comparison")
     # the configuration global: the module-level name that __eq__ passes to _pack
     gname = None
+    from ..core import expand_aliases as _ea, single_assign_aliases as _saa
+
+    _al = _saa(eq)
     for c in eqc:
         for k in list(c.keywords) + [ast.keyword(arg=None, value=a) for a in c.args]:
-            for n in ast.walk(k.value):
+            for n in ast.walk(_ea(k.value, _al)):
                 if isinstance(n, ast.Name) and prog.resolve_global(base, n.id) is not None and n.id not in func_params(eq):
                     gname = n.id
     if gname is None:
